@@ -149,3 +149,21 @@ func VerifCalcFingerPrintLength(size uint64, errorRate float64) uint64 {
 }
 
 func VerifRandomKey() string { return util.GenerateRandomString(16) }
+
+// ---- single-cell mutators (for equality checks on structures differing in exactly one cell) ----
+
+func VerifCMSSetCell(s *CountMinSketch, r, c uint, v uint64) { s.matrix[r][c] = v }
+
+func VerifHLLSetRegister(h *HyperLogLog, i uint64, v uint8) { h.registers[i] = v }
+
+func VerifCuckooSetSlot(f *CuckooFilter, b, s uint64, fp string) { f.buckets[b].elements[s] = fp }
+
+func VerifTopKSetHeapEntry(t *TopK, i int, value string, freq uint64) {
+	t.heap[i] = heapElement{value, freq}
+}
+
+func VerifBloomSetBit(f *BloomFilter, i uint) {
+	if m, ok := f.filter.(*BitSetMem); ok {
+		m.set.Set(i)
+	}
+}
